@@ -177,6 +177,7 @@ func c18Sets() []c18Set {
 type c18Range struct {
 	Start, End, Step int64 // ms
 	Instants         bool  // every step is also asked as an instant query (and range == sequence of instants is checked)
+	SegInstants      bool  // ... also on the storage layouts of the small-segment server (budget: range B only)
 }
 
 func c18Ranges() []c18Range {
@@ -184,7 +185,7 @@ func c18Ranges() []c18Range {
 		// A: hits sample timestamps (scrape = 15 s): T0-1m … T0+21m every 2 m (before first sample, inside, after last); step > scrape
 		{Start: c18T0 - 60_000, End: c18T0 + 21*60_000, Step: 120_000, Instants: true},
 		// B: misses them: T0+4m07.3s … every 47 s, 16 steps; step > scrape
-		{Start: c18T0 + 4*60_000 + 7_300, End: c18T0 + 4*60_000 + 7_300 + 15*47_000, Step: 47_000, Instants: true},
+		{Start: c18T0 + 4*60_000 + 7_300, End: c18T0 + 4*60_000 + 7_300 + 15*47_000, Step: 47_000, Instants: true, SegInstants: true},
 		// C: step 5 s < scrape interval, T0-30s … T0+20m30s (253 steps; every third one on a sample timestamp): several
 		// evaluation steps between two consecutive samples, hence between two storage records
 		{Start: c18T0 - 30_000, End: c18T0 + 20*60_000 + 30_000, Step: 5_000},
@@ -1063,15 +1064,26 @@ func c18Unsupported(a *c18Answer) bool {
 		strings.Contains(e, "not implemented")
 }
 
-// blame descends to the smallest sub-expression whose instant answer at t differs.
-func (r *c18Runner) blame(e parser.Expr, t int64) (parser.Expr, string) {
+// blame descends to the smallest sub-expression whose answer at t differs: the instant answer at t, or (rq != nil, the
+// mismatch was found in a range query) step t of the answer to the same range query.
+func (r *c18Runner) blame(e parser.Expr, t int64, rq *c18Range) (parser.Expr, string) {
 	for _, c := range c18Children(e) {
 		txt := c.String()
 		key := txt + "@" + strconv.FormatInt(t, 10)
+		if rq != nil {
+			key = fmt.Sprintf("%s@%d in %d,%d,%d", txt, t, rq.Start, rq.End, rq.Step)
+		}
 		cls, ok := r.memo[key]
 		if !ok {
-			want := r.ref.instant(txt, t)
-			got := r.srv.instant(r.db, txt, t)
+			var want, got *c18Answer
+			if rq != nil {
+				want, got = r.ref.rng(txt, *rq), r.srv.rng(r.db, txt, *rq)
+				if want.Err == "" && got.Err == "" {
+					want, got = want.at(t), got.at(t)
+				}
+			} else {
+				want, got = r.ref.instant(txt, t), r.srv.instant(r.db, txt, t)
+			}
 			switch {
 			case want.Err != "":
 				cls = ""
@@ -1086,7 +1098,7 @@ func (r *c18Runner) blame(e parser.Expr, t int64) (parser.Expr, string) {
 			r.memo[key] = cls
 		}
 		if cls != "" {
-			if sub, scls := r.blame(c, t); sub != nil {
+			if sub, scls := r.blame(c, t, rq); sub != nil {
 				return sub, scls
 			}
 			return c, cls
@@ -1099,21 +1111,32 @@ func (r *c18Runner) blame(e parser.Expr, t int64) (parser.Expr, string) {
 // attributed to the smallest sub-expression whose instant answer at bt differs as well.
 func (r *c18Runner) report(expr string, pe parser.Expr, mode string, bt int64, rq c18Range, cls, diff string, want, got *c18Answer) {
 	blamed, bcls := pe, cls
+	if bt != 0 && mode == "range_vs_instants" {
+		// the operand whose range answer differs from upstream at step bt (the instant answers being right) explains it
+		if sub, _ := r.blame(pe, bt, &rq); sub != nil {
+			blamed = sub
+		}
+	}
 	if bt != 0 && mode != "range_vs_instants" {
-		if sub, scls := r.blame(pe, bt); sub != nil {
+		if sub, scls := r.blame(pe, bt, nil); sub != nil {
 			blamed, bcls = sub, scls
+		} else if mode == "range" && rq.Step > 0 {
+			// the instant answers of all operands are right at bt: look for the operand whose range answer differs at step bt
+			if sub, scls := r.blame(pe, bt, &rq); sub != nil {
+				blamed, bcls = sub, scls
+			}
 		}
 	}
 	kind := bcls + ":" + c18Feature(blamed)
-	if mode == "range" && blamed == pe && bt != 0 {
+	if mode == "range" && bt != 0 {
 		// the instant query at the failing step may be right while the range query is wrong
-		wi, gi := r.ref.instant(expr, bt), r.srv.instant(r.db, expr, bt)
+		wi, gi := r.ref.instant(blamed.String(), bt), r.srv.instant(r.db, blamed.String(), bt)
 		if c, _ := c18Diff(wi, gi); c == "" && gi.Err == "" {
 			kind = "range_only_" + kind
 		}
 	}
 	if mode == "range_vs_instants" {
-		kind = "range_ne_instants:" + c18Feature(pe)
+		kind = "range_ne_instants:" + c18Feature(blamed)
 	}
 	if ek := r.explain(blamed, pe, mode, bt, rq, cls, diff, want, got); ek != "" {
 		kind = ek
@@ -1359,6 +1382,9 @@ func (r *c18Runner) runExpr(expr string) {
 	ranges := c18Ranges()
 	reportedInstant := false
 	for _, rq := range ranges {
+		if r.layout != c18LayDefault {
+			rq.Instants = rq.SegInstants
+		}
 		times := rq.times()
 		srvInst := map[int64]*c18Answer{}
 		unsupported := false
@@ -1640,17 +1666,11 @@ func TestVerifC18(t *testing.T) {
 			return
 		}
 	}
-	// work list in a fixed order, sharded by index: per set the whole grammar on the default layout, then the raw-sample
-	// grammar on every storage layout
+	// work list in a fixed order, sharded by index: per set the raw-sample grammar on every storage layout, then the whole
+	// grammar on the default layout
 	var work []c18Work
 	n := 0
 	for si := range sets {
-		for _, e := range exprs {
-			if kit.Mine(n) {
-				work = append(work, c18Work{si, c18LayDefault, e})
-			}
-			n++
-		}
 		for _, l := range layouts {
 			for _, e := range raw {
 				if kit.Mine(n) {
@@ -1658,6 +1678,12 @@ func TestVerifC18(t *testing.T) {
 				}
 				n++
 			}
+		}
+		for _, e := range exprs {
+			if kit.Mine(n) && os.Getenv("VERIF_C18_SKIP_DEFAULT") == "" { // development: storage layouts only
+				work = append(work, c18Work{si, c18LayDefault, e})
+			}
+			n++
 		}
 	}
 	refs := map[int]*c18Ref{}
